@@ -40,6 +40,22 @@ pub fn check_scale(b: &[u8], class: &str, rep: &mut Report, case: &dyn Fn() -> s
             json!({"class": class, "input_hex": hex(b), "len": b.len(), "at": case()}),
         );
     }
+    // the same bytes through an input that cannot tell its remaining length
+    if b.len() % 8 == 3 || class.starts_with("lying") || class.starts_with("many") || (class == "slot-veclen" && b.len() % 2 == 0) {
+        alloc::window_start();
+        let r2 = guard(|| PortableRegistry::decode(&mut scale::IoReader(&b[..])));
+        let (peak2, _) = alloc::window_peak();
+        rep.count("scale_stream_inputs", 1);
+        if peak2 > bound {
+            rep.violation("C14/memory", format!("decode of a {}-byte streaming input held {} bytes of heap at its peak (bound {})", b.len(), peak2, bound), json!({"class": class, "input_hex": hex(b), "len": b.len(), "stream": true, "at": case()}));
+        }
+        match (&r2, &res) {
+            (Err(p), _) => rep.violation("C14/panic", format!("decode from a streaming input panicked: {}", p), json!({"class": class, "input_hex": hex(b), "stream": true, "at": case()})),
+            (Ok(Ok(x)), Ok(Ok(y))) if x != y => rep.violation("C14/stream-input-differs", "the same bytes decode to different registries from a slice and from a streaming input".into(), json!({"class": class, "input_hex": hex(b), "at": case()})),
+            (Ok(Ok(_)), Ok(Err(_))) | (Ok(Err(_)), Ok(Ok(_))) => rep.violation("C14/stream-input-differs", "the same bytes are accepted from one kind of input and rejected from the other".into(), json!({"class": class, "input_hex": hex(b), "at": case()})),
+            _ => {}
+        }
+    }
     match res {
         Err(p) => rep.violation("C14/panic", format!("decode panicked: {}", p), json!({"class": class, "input_hex": hex(b), "at": case()})),
         Ok(Err(_)) => rep.count("scale_rejected", 1),
@@ -229,6 +245,11 @@ pub fn run(a: &Args) -> Report {
             b"{\"types\":[{\"id\":0,\"id\":1,\"type\":{\"def\":{\"primitive\":\"u8\"}}}]}".to_vec(),
             b"{\"types\":[{\"id\":0,\"type\":{\"def\":{\"primitive\":\"u8\"},\"path\":[\"\\ud800\"]}}]}".to_vec(),
             b"{\"types\":[{\"id\":0,\"type\":{\"def\":{\"primitive\":\"u8\"},\"path\":[\"\xff\xfe\"]}}]}".to_vec(),
+            "{\"types\":[{\"id\":0,\"type\":{\"def\":{\"primitive\":\"é8\"}}}]}".as_bytes().to_vec(),
+            "{\"types\":[{\"id\":0,\"type\":{\"def\":{\"primitive\":\"€\"}}}]}".as_bytes().to_vec(),
+            b"{\"types\":[{\"id\":0,\"type\":{\"def\":{\"primitive\":\"\\u00e98\"}}}]}".to_vec(),
+            "{\"types\":[{\"id\":0,\"type\":{\"def\":{\"séquence\":{\"type\":0}}}}]}".as_bytes().to_vec(),
+            b"{\"types\":[{\"id\":0,\"type\":{\"def\":{\"primitive\":\"\"}}}]}".to_vec(),
             b"{\"types\":null}".to_vec(),
             b"null".to_vec(),
             b"".to_vec(),
@@ -457,7 +478,22 @@ fn json_fault(v: &mut serde_json::Value, rng: &mut Rng) -> &'static str {
     let total = count(v);
     let mut k = rng.below(total);
     let node: &mut Value = nth(v, &mut k).expect("node index in range");
-    match rng.below(9) {
+    match rng.below(11) {
+        9 | 10 => {
+            // hostile replacement strings: multi-byte first characters, look-alike digits, near misses of the tag names
+            let pool = ["é8", "ü128", "€", "\u{e9}8", "", "u", "U8", "u８", "u8 ", " u8", "i256x", "Bool", "𝓊8", "u\u{0}8", "compösite", "séquence"];
+            let s = *rng.pick(&pool);
+            if let Value::Object(m) = node {
+                if m.len() == 1 && rng.flip() {
+                    let k = m.keys().next().cloned().unwrap();
+                    let x = m.remove(&k).unwrap();
+                    m.insert(s.to_string(), x);
+                    return "hostile-key";
+                }
+            }
+            *node = Value::String(s.to_string());
+            "hostile-string"
+        }
         0 => {
             if let Value::Object(m) = node {
                 if let Some(k) = m.keys().next().cloned() {
